@@ -13,7 +13,7 @@ use std::fmt;
 
 use trustfall_core::ir::{FieldValue, Type};
 
-use crate::sexp::Sexp;
+use tfharness::sexp::Sexp;
 
 /// A type of the protocol: `(T <base> <n0> … <nk>)`, nullability flags from the OUTERMOST level to
 /// the base (`true` = nullable); list depth = `nullable.len() - 1`.
@@ -116,13 +116,18 @@ impl fmt::Display for Ty {
     }
 }
 
+/// Atom from anything printable.
+pub fn atom(s: impl ToString) -> Sexp {
+    Sexp::Atom(s.to_string())
+}
+
 /// `(params (<p> <value>)…)` sorted by name.
 pub fn params_sexp<'a>(params: impl Iterator<Item = (&'a str, &'a FieldValue)>) -> Sexp {
     let mut v: Vec<(&str, &FieldValue)> = params.collect();
     v.sort_by(|a, b| a.0.cmp(b.0));
     Sexp::call(
         "params",
-        v.into_iter().map(|(k, val)| Sexp::list(vec![Sexp::atom(k), crate::values::value_to_sexp(val)])).collect(),
+        v.into_iter().map(|(k, val)| Sexp::list(vec![Sexp::atom(k), tfharness::values::value_to_sexp(val)])).collect(),
     )
 }
 
